@@ -23,15 +23,15 @@ var hostileFragments = [][]byte{
 	{0xff, 0xff, 0xff, 0xff, 0xff, 0xff, 0xff, 0xff, 0xff, 0xff, 0x01}, // 11-byte varint (invalid)
 	{0x0a, 0xff, 0xff, 0xff, 0xff, 0x0f},                               // field 1, length 2^32-1
 	{0x0a, 0xff, 0xff, 0xff, 0xff, 0xff, 0xff, 0xff, 0xff, 0x7f},       // field 1, length 2^63-1
-	{0x0b, 0x0c},             // start/end group field 1
-	{0x0b},                   // unterminated group
-	{0x08, 0x00},             // field 1 as varint (wrong wire type for messages)
-	{0x0d, 1, 2, 3, 4},       // field 1 as fixed32
-	{0x09, 1, 2, 3, 4, 5, 6, 7, 8}, // field 1 as fixed64
-	{0x0a, 0x00},             // field 1 empty
-	{0x12, 0x00},             // field 2 empty
-	{0x1a, 0x00},             // field 3 empty
-	{0x00},                   // field number 0 (invalid)
+	{0x0b, 0x0c},                         // start/end group field 1
+	{0x0b},                               // unterminated group
+	{0x08, 0x00},                         // field 1 as varint (wrong wire type for messages)
+	{0x0d, 1, 2, 3, 4},                   // field 1 as fixed32
+	{0x09, 1, 2, 3, 4, 5, 6, 7, 8},       // field 1 as fixed64
+	{0x0a, 0x00},                         // field 1 empty
+	{0x12, 0x00},                         // field 2 empty
+	{0x1a, 0x00},                         // field 3 empty
+	{0x00},                               // field number 0 (invalid)
 	{0xf8, 0xff, 0xff, 0xff, 0x0f, 0x00}, // highest field number
 }
 
